@@ -172,6 +172,10 @@ type world struct {
 	invPaths      []string // override of the invocation path pool
 	fixedPriority bool
 
+	execAuthGate gate
+	killAuthGate gate
+	pendingKills []*pendingKill
+
 	m *model
 }
 
@@ -217,7 +221,7 @@ func newWorld(rt *rapid.T, cfg worldConfig) *world {
 		GetIdleWorkerSynchronizationInterval: func() time.Duration { return idleSyncInterval },
 		WorkerTaskRetryCount:                 cfg.RetryCount,
 		WorkerWithNoSynchronizationsTimeout:  workerTimeout,
-	}, maximumMessageSiz, router, allowAuthorizer{}, allowAuthorizer{}, allowAuthorizer{}, allowAuthorizer{})
+	}, maximumMessageSiz, router, gatedAuthorizer{&w.execAuthGate}, allowAuthorizer{}, gatedAuthorizer{&w.killAuthGate}, allowAuthorizer{})
 	for _, q := range cfg.Queues {
 		if q.Predeclared {
 			limits := make([]time.Duration, 0, len(q.Stickiness))
@@ -392,7 +396,15 @@ func (w *world) stepCancelStream() bool {
 }
 
 func (w *world) stepBreakStream() bool {
-	live := w.liveStreams()
+	var live []*streamSim
+	for _, s := range w.liveStreams() {
+		// Only streams that already received their first message (see
+		// stepParkSend): a stream whose very first Send fails attaches and
+		// detaches without the client ever learning the operation name.
+		if _, ok := w.m.streamOp[s.id]; ok {
+			live = append(live, s)
+		}
+	}
 	if len(live) == 0 {
 		return false
 	}
@@ -594,6 +606,146 @@ func (w *world) stepCancelSync() bool {
 	w.record("cancelSync", fmt.Sprintf("worker=%d", wk.idx))
 	wk.cancel()
 	w.quiesce()
+	return true
+}
+
+// ---------------------------------------------------------------- parked calls
+
+type pendingKill struct {
+	name     string
+	status   *status_pb.Status
+	returned bool
+	err      error
+	step     int
+}
+
+// stepParkSend arms the Send gate of a live stream: its next message
+// blocks in the transport until released.
+func (w *world) stepParkSend() bool {
+	var live []*streamSim
+	for _, s := range w.liveStreams() {
+		// Only streams that already received their first message: the
+		// model learns the operation a stream is attached to from it.
+		if _, ok := w.m.streamOp[s.id]; ok {
+			live = append(live, s)
+		}
+	}
+	if len(live) == 0 {
+		return false
+	}
+	s := live[rapid.IntRange(0, len(live)-1).Draw(w.rt, "stream")]
+	w.record("parkNextSend", fmt.Sprintf("stream=%d", s.id))
+	s.stream.gate.arm()
+	return true
+}
+
+func (w *world) stepReleaseSend() bool {
+	var cands []*streamSim
+	for _, s := range w.streams {
+		if s.stream.gate.waiting() > 0 {
+			cands = append(cands, s)
+		}
+	}
+	if len(cands) == 0 {
+		return false
+	}
+	s := cands[rapid.IntRange(0, len(cands)-1).Draw(w.rt, "stream")]
+	w.m.pre()
+	w.record("releaseSend", fmt.Sprintf("stream=%d", s.id))
+	s.stream.gate.release()
+	w.quiesce()
+	return true
+}
+
+// stepWaitParked issues a WaitExecution whose authorization check parks
+// between the two lock sections of the call.
+func (w *world) stepWaitParked() bool {
+	if w.execAuthGate.waiting() > 0 {
+		return false
+	}
+	w.m.pre()
+	names := w.m.liveOperationNames()
+	if len(names) == 0 {
+		return false
+	}
+	name := rapid.SampledFrom(names).Draw(w.rt, "opName")
+	s := w.newStream("wait")
+	s.waitName = name
+	w.record("waitExecutionParkedAuth", fmt.Sprintf("stream=%d name=%s", s.id, shortName(name)))
+	w.execAuthGate.arm()
+	go func() {
+		err := w.bq.WaitExecution(&remoteexecution.WaitExecutionRequest{Name: name}, s.stream)
+		s.mu.Lock()
+		s.finished, s.err = true, err
+		s.mu.Unlock()
+	}()
+	w.quiesce()
+	w.execAuthGate.disarm()
+	return true
+}
+
+// stepKillParked issues a KillOperations call whose authorization check
+// parks between the lookup and the kill.
+func (w *world) stepKillParked() bool {
+	if w.killAuthGate.waiting() > 0 {
+		return false
+	}
+	w.m.pre()
+	names := w.m.liveOperationNames()
+	if len(names) == 0 {
+		return false
+	}
+	name := rapid.SampledFrom(names).Draw(w.rt, "opName")
+	st := killStatuses[rapid.IntRange(0, len(killStatuses)-1).Draw(w.rt, "killStatus")]
+	pk := &pendingKill{name: name, status: st, step: w.stepNo}
+	w.pendingKills = append(w.pendingKills, pk)
+	w.record("killParkedAuth", fmt.Sprintf("name=%s status=%s", shortName(name), codes.Code(st.Code)))
+	w.killAuthGate.arm()
+	go func() {
+		_, err := w.bq.KillOperations(context.Background(), &buildqueuestate.KillOperationsRequest{
+			Filter: &buildqueuestate.KillOperationsRequest_Filter{Type: &buildqueuestate.KillOperationsRequest_Filter_OperationName{OperationName: name}},
+			Status: st,
+		})
+		w.mu.Lock()
+		pk.returned, pk.err = true, err
+		w.mu.Unlock()
+	}()
+	w.quiesce()
+	w.killAuthGate.disarm()
+	return true
+}
+
+func (w *world) stepReleaseAuth() bool {
+	which := rapid.IntRange(0, 1).Draw(w.rt, "which")
+	gates := []*gate{&w.execAuthGate, &w.killAuthGate}
+	if gates[which].waiting() == 0 {
+		which = 1 - which
+	}
+	if gates[which].waiting() == 0 {
+		return false
+	}
+	w.m.pre()
+	rec := w.record("releaseAuth", []string{"execute/wait", "kill"}[which])
+	if which == 1 {
+		for _, pk := range w.pendingKills {
+			w.mu.Lock()
+			r := pk.returned
+			w.mu.Unlock()
+			if !r {
+				w.m.onKill(pk.name, pk.status)
+				w.m.label("kill_after_parked_authorization")
+			}
+		}
+	}
+	gates[which].release()
+	w.quiesce()
+	for _, pk := range w.pendingKills {
+		w.mu.Lock()
+		if pk.returned && rec.Out == "" && which == 1 {
+			rec.Out = errString(pk.err)
+		}
+		w.mu.Unlock()
+	}
 	return true
 }
 
